@@ -68,13 +68,21 @@ RULE = ('one case = one planting (p_th, nu, A, B, C, distance set, number of rat
         'further families are enumerated the same way (3 orders each): low-stat (p_th in {0.05, 0.1}, nu in '
         '{0.7, 1}, two (A, B, C), distances {3,5,7} / {4,6,8}, N in {200, 300, 500}, 7 rates on p_th (1 +- 0.15)) '
         'and off-centre (p_th in {0.06, 0.1, 0.15}, nu in {0.8, 1, 1.25}, N in {300, 2000}, 8 rates with step '
-        '0.04 p_th and p_th at 1/4 or 3/4 of the window)')
+        '0.04 p_th and p_th at 1/4 or 3/4 of the window). Family multi-set: ONE Analysis holds two planted data '
+        'sets that differ in exactly one identifying field (decoder parameters, noise direction, decoder class, '
+        'code family), each with its own planted threshold, in own or shared rate windows; every planted set must '
+        'be its own row of the thresholds table and satisfy every clause with its own p_th (rows are assigned to '
+        'sets by nearest threshold, the data points of a row are taken from trunc_results by the row\'s own '
+        'identifying columns and must be exactly the planted table of that set); files of the two sets are '
+        'permuted and interleaved')
 ASSUMPTIONS = [
     'documented ansatz f = A + B x + C x^2 with x = (p - p_th) d^nu (property statement; fit_function, rescale_prob)',
     'N trials per point (2000; unequal 4000..1000 per distance; 200/300/500 in the low-statistics families), '
     'n_fail = round(f N): data lie on the ansatz up to 1/(2N)',
     'Toric2DCode(L, L).d == L (asserted on the real object while writing the template)',
     'a record of the results file is a "row"; the per-distance files are the "files" of the property',
+    'data sets whose (code family, noise model + parameters, decoder class + parameters) differ are separate '
+    'parameter sets with separate thresholds (Analysis docs: thresholds for each (code, error_model, decoder))',
 ]
 _GRID = {'p_th': [0.03, 0.06, 0.1, 0.15], 'nu': [0.8, 1.0, 1.25], 'A': [0.25, 0.35], 'B': [0.8, 1.5],
          'C': [0.5, 1.0]}
@@ -87,12 +95,16 @@ BOUNDS = {
               'n_rates': _NRATES, 'n_trials': 2000, 'code': 'Toric2DCode LxL',
               'plantings': 'one per (p_th, distance set, n_rates) = 16, (nu, A, B, C) cycled through the lattice',
               'orders_per_planting': 3,
-              'extra_families': '3 low-stat + 3 off-centre plantings (see RULE), 3 orders each'},
+              'extra_families': '3 low-stat + 3 off-centre plantings (see RULE), 3 orders each',
+              'multi_set': '4 cases (one per varied identifying field), 2 planted sets each, distances 3,5,7, '
+                           '3 orders'},
     'thorough': {'grid': _GRID, 'window_half_width': {str(k): v for k, v in _HALF.items()},
                  'distance_sets': _DSETS, 'n_rates': _NRATES, 'n_trials': 2000, 'code': 'Toric2DCode LxL',
                  'plantings': 'full lattice filtered to 0 < f < 1, equal and unequal trial counts',
                  'orders_per_planting': 6,
-                 'extra_families': '48 low-stat + 72 off-centre plantings (see RULE), 3 orders each'},
+                 'extra_families': '48 low-stat + 72 off-centre plantings (see RULE), 3 orders each',
+                 'multi_set': '4 varied fields x 4 planting pairs x 2 distance sets filtered to 0 < f < 1 = 28 '
+                              'cases, 2 planted sets each, 6 orders'},
 }
 BUDGET_S = {'quick': 600, 'thorough': 3600}
 
@@ -125,7 +137,11 @@ def _file_orders(k):
         return [[0, 1, 2], [2, 1, 0], [1, 2, 0], [0, 2, 1], [1, 0, 2], [2, 0, 1]]
     if k == 4:
         return [[0, 1, 2, 3], [3, 2, 1, 0], [1, 2, 3, 0], [2, 3, 0, 1], [3, 0, 1, 2], [1, 0, 3, 2]]
-    raise AssertionError('no order list for %d files' % k)
+    # k result files of several planted sets: identity, reversal, sets interleaved, halves swapped, a rotation,
+    # neighbours swapped (every file moves; files of different sets alternate in the third)
+    base = list(range(k))
+    swapped = [j for i in range(0, k - 1, 2) for j in (i + 1, i)] + ([k - 1] if k % 2 else [])
+    return [base, base[::-1], base[::2] + base[1::2], base[k // 2:] + base[:k // 2], base[1:] + base[:1], swapped]
 
 
 def _row_order(shuffle, n):
@@ -191,6 +207,52 @@ def _extra_lattice():
     return keep
 
 
+# identifying fields of a (code family, noise, decoder) parameter set; two values per field, everything else equal
+_VARIED = {
+    'decoder_params': [{'decoder': ['BeliefPropagationOSDDecoder', {'max_bp_iter': 10, 'osd_order': 0}]},
+                       {'decoder': ['BeliefPropagationOSDDecoder', {'max_bp_iter': 1000, 'osd_order': 0}]}],
+    'noise_direction': [{'direction': [1 / 3, 1 / 3, 1 / 3]}, {'direction': [0.05, 0.05, 0.9]}],
+    'decoder_class': [{'decoder': ['MatchingDecoder', {}]},
+                      {'decoder': ['BeliefPropagationOSDDecoder', {}]}],
+    'code_family': [{'cls': 'Toric2DCode'}, {'cls': 'Planar2DCode'}],
+}
+# pairs of plantings (p_th, nu, A, B, C, centre of the rate window): own windows, and one shared window
+_PAIRS = [
+    [[0.06, 1.0, 0.25, 0.8, 0.5, 0.06], [0.1, 1.25, 0.35, 0.8, 0.5, 0.1]],
+    [[0.1, 1.0, 0.35, 1.5, 1.0, 0.1], [0.09, 1.0, 0.25, 0.8, 1.0, 0.1]],      # same rates for both sets
+    [[0.15, 0.8, 0.25, 0.8, 0.5, 0.15], [0.1, 0.8, 0.35, 1.5, 1.0, 0.1]],
+    [[0.1, 1.25, 0.25, 0.8, 1.0, 0.1], [0.11, 0.8, 0.35, 0.8, 0.5, 0.1]],      # same rates for both sets
+]
+
+
+def _multi_lattice(tier):
+    """Family 'multi-set': ONE Analysis holds two planted data sets that differ in exactly one identifying field
+    (decoder parameters / noise direction / decoder class / code family), each with its own planted threshold.
+    Every planted set must be reported as its own row with its own threshold (all clauses of the centred family)."""
+    out = []
+    dsets = [[3, 5, 7]] if tier == 'quick' else _DSETS
+    for ds in dsets:
+        for vi, (varied, values) in enumerate(sorted(_VARIED.items())):
+            pairs = [_PAIRS[vi % len(_PAIRS)]] if tier == 'quick' else _PAIRS
+            for pair in pairs:
+                sets = []
+                for (p_th, nu, A, B, C, centre), value in zip(pair, values):
+                    sd = {'p_th': p_th, 'nu': nu, 'A': A, 'B': B, 'C': C, 'ds': list(ds), 'nrates': 7,
+                          'rates': _rates(centre, 0.03, 7), 'half': None, 'cls': 'Toric2DCode',
+                          'n_trials': N_TRIALS, 'window': 'centred' if centre == p_th else 'shared, centre %g' % centre}
+                    sd.update(value)
+                    fs = [_ansatz(p, d, p_th, nu, A, B, C) for p in sd['rates'] for d in ds]
+                    if min(fs) > 0 and max(fs) < 1:          # same filter as the centred lattice
+                        sets.append(sd)
+                if len(sets) != len(values):
+                    continue
+                n_orders = 3 if tier == 'quick' else 6
+                perms = _file_orders(len(sets) * len(ds))[:n_orders]
+                out.append({'family': 'multi-set', 'varied': varied, 'sets': sets, 'ds': list(ds),
+                            'orders': [[perm, j % 3] for j, perm in enumerate(perms)]})
+    return out
+
+
 def cases(tier, seed):
     lat = _lattice()
     n_orders = BOUNDS[tier]['orders_per_planting']
@@ -233,21 +295,26 @@ def cases(tier, seed):
         perms = _file_orders(len(c['ds']))[:3]
         c['orders'] = [[perm, j % 3] for j, perm in enumerate(perms)]
         out.append(c)
+    out.extend(_multi_lattice(tier))
     return out
 
 
 # ---------------------------------------------------------------- real-format files
-def _template(cls, d, ps, path):
+_DEFAULT_DECODER = ['MatchingDecoder', {}]
+_DEFAULT_DIRECTION = [1 / 3, 1 / 3, 1 / 3]
+
+
+def _template(cls, d, ps, path, decoder=None, direction=None):
     """Real results file for one distance: a real BatchSimulation runs one trial per error rate and saves."""
-    from panqec import codes
-    from panqec.decoders import MatchingDecoder
+    from panqec import codes, decoders
     from panqec.error_models import PauliErrorModel
     from panqec.simulation import BatchSimulation, DirectSimulation
+    dec_name, dec_kw = decoder or _DEFAULT_DECODER
     code = getattr(codes, cls)(d, d)
-    em = PauliErrorModel(1 / 3, 1 / 3, 1 / 3)
+    em = PauliErrorModel(*(direction or _DEFAULT_DIRECTION))
     bs = BatchSimulation(path, label='c16', verbose=False)
     for p in ps:
-        bs.append(DirectSimulation(code, em, MatchingDecoder(code, em, p), p,
+        bs.append(DirectSimulation(code, em, getattr(decoders, dec_name)(code, em, p, **dec_kw), p,
                                    rng=np.random.default_rng(0), verbose=False))
     with contextlib.redirect_stdout(io.StringIO()):
         bs.run(1)
@@ -269,6 +336,7 @@ def _plant(rec, nf, N_TRIALS=N_TRIALS):
 
 
 def _key(case, kind, **kw):
+    """`case` is the planted data set concerned (for single-set cases the case itself)."""
     if kind != 'order-dependence':      # order goes to the detail; the key names the planting
         kw.pop('file_order', None)
         kw.pop('row_shuffle', None)
@@ -277,167 +345,228 @@ def _key(case, kind, **kw):
          'n_rates': case['nrates'], 'trial_counts': case.get('trial_counts', 'equal'),
          'family': case.get('family', 'centred'), 'n_trials': case.get('n_trials', N_TRIALS),
          'window': case.get('window', 'centred')}
+    if case.get('varied'):              # several planted sets in one Analysis: which field differs, which set
+        k.update({'varied': case['varied'], 'set': case['set'], 'n_sets': case['n_sets']})
     k.update(kw)
     return k
 
 
 def _observe(files):
+    """All rows of the thresholds table, each with the data points the analysis attributes to it."""
     from panqec.analysis import Analysis
     with contextlib.redirect_stdout(io.StringIO()):
         an = Analysis(list(files))
         th = an.thresholds
         tr = an.trunc_results['total']
-    obs = {'n_rows': int(len(th))}
-    if len(th) != 1:
-        return obs
-    row = th.iloc[0]
-    obs.update({
-        'fit_status': str(row['fit_status']),
-        'fss_params': [float(v) for v in np.asarray(row['fss_params'], dtype=float)],
-        'p_th_fss': float(row['p_th_fss']),
-        'p_th_fss_left': float(row['p_th_fss_left']),
-        'p_th_fss_right': float(row['p_th_fss_right']),
-        'p_th_fss_se': float(row['p_th_fss_se']),
-        'points': sorted([int(d), float(p), float(pe), float(x)] for d, p, pe, x in
-                         zip(tr['d'], tr['error_rate'], tr['p_est'], tr['rescaled_p'])),
-    })
-    return obs
+    ident = ['code', 'error_model_label', 'decoder_label']
+    rows = []
+    for _, row in th.iterrows():
+        sel = tr
+        for col in ident:               # join of two panqec tables on panqec's own identifying columns
+            sel = sel[sel[col] == row[col]]
+        rows.append({
+            'identity': [str(row[col]) for col in ident],
+            'fit_status': str(row['fit_status']),
+            'fss_params': [float(v) for v in np.asarray(row['fss_params'], dtype=float)],
+            'p_th_fss': float(row['p_th_fss']),
+            'p_th_fss_left': float(row['p_th_fss_left']),
+            'p_th_fss_right': float(row['p_th_fss_right']),
+            'p_th_fss_se': float(row['p_th_fss_se']),
+            'points': sorted([int(d), float(p), float(pe), float(x)] for d, p, pe, x in
+                             zip(sel['d'], sel['error_rate'], sel['p_est'], sel['rescaled_p'])),
+        })
+    return rows
 
 
 def _numbers(obs):
     return [obs['p_th_fss'], obs['p_th_fss_left'], obs['p_th_fss_right'], obs['p_th_fss_se']] + obs['fss_params']
 
 
+def _brief(obs):
+    return {k: obs[k] for k in obs if k != 'points'}
+
+
+def _planted_sets(case):
+    """The data sets planted into ONE Analysis: the case itself, or case['sets'] (each with its own p_th)."""
+    if not case.get('sets'):
+        return [case]
+    out = []
+    for i, sd in enumerate(case['sets']):
+        sd = dict(sd)
+        sd.update({'family': case['family'], 'varied': case['varied'], 'set': i, 'n_sets': len(case['sets'])})
+        out.append(sd)
+    return out
+
+
+def _match(rows, sets):
+    """Assign table rows to planted sets (equal counts): the assignment with the smallest total
+    |p_th_fss - planted p_th| (non-finite estimates count as 1)."""
+    def cost(r, sd):
+        v = abs(r['p_th_fss'] - sd['p_th'])
+        return v if math.isfinite(v) else 1.0
+    best = min(itertools.permutations(range(len(rows))),
+               key=lambda perm: sum(cost(rows[j], sets[i]) for i, j in enumerate(perm)))
+    return [rows[j] for j in best]
+
+
+def _judge(sd, obs, table, Nd, ps, okey, V, extra):
+    """All per-threshold clauses for one planted set `sd` and the table row `obs` matched to it."""
+    p_th, nu, A, B, C = sd['p_th'], sd['nu'], sd['A'], sd['B'], sd['C']
+    p_lo, p_hi = min(ps), max(ps)
+    tol_param = sd.get('tol', {}).get('param', TOL_PARAM)
+    tol_resid = sd.get('tol', {}).get('resid', TOL_RESID)
+    # (1) status.  Waived (and counted) when an end of the reported interval is not a probability: then the
+    #     bootstrap is so wide that the planting is not in the well-conditioned box for this clause, and
+    #     'Invalid threshold value.' is the documented answer (2 of the 120 low-stat/off-centre plantings on /repo).
+    interval_valid = 0 <= obs['p_th_fss_left'] and obs['p_th_fss_right'] <= 1
+    if obs['fit_status'] != 'success' and not interval_valid and sd.get('family') in ('low-stat', 'off-centre'):
+        extra['status_clause_waived_interval_end_not_probability'] += 1
+    elif obs['fit_status'] != 'success':
+        V.append({'key': _key(sd, 'fit-not-success', status=obs['fit_status'][:60], **okey),
+                  'detail': dict(_brief(obs), order=okey)})
+    fp = obs['fss_params']
+    est, left, right = obs['p_th_fss'], obs['p_th_fss_left'], obs['p_th_fss_right']
+    det = _brief(obs)
+    det['order'] = okey
+    det['planted'] = {'p_th': p_th, 'nu': nu, 'A': A, 'B': B, 'C': C, 'data_range': [p_lo, p_hi]}
+    if not all(math.isfinite(v) for v in _numbers(obs)):
+        return
+    # (2) fitted threshold parameter and reported estimate
+    if abs(fp[0] - p_th) > tol_param:
+        V.append({'key': _key(sd, 'threshold-off', which='fss_params[0]', **okey), 'detail': det})
+    elif abs(est - p_th) > max(TOL_REPORT, (right - left) / 2):
+        V.append({'key': _key(sd, 'threshold-off', which='p_th_fss', **okey), 'detail': det})
+    # (3) estimate inside its own interval and inside the data range; for the well-sampled centred
+    #     family (DESIGN plan) the whole interval lies inside the data range as well
+    if not left <= est <= right:
+        V.append({'key': _key(sd, 'outside-own-interval', **okey), 'detail': det})
+    if not p_lo <= est <= p_hi:
+        V.append({'key': _key(sd, 'estimate-outside-data-range', **okey), 'detail': det})
+    elif sd.get('interval_in_range', True) and not (p_lo <= left and right <= p_hi):
+        V.append({'key': _key(sd, 'interval-outside-data-range', **okey), 'detail': det})
+    # (4) the reported parameters, read on the DOCUMENTED ansatz, reproduce the planted rates of THIS set
+    resid = 0.0
+    xerr = 0.0
+    misread = len(obs['points']) != len(table)
+    for d, p, pe, x in obs['points']:
+        want = table.get((d, round(p, 6)))
+        if want is None or abs(pe - want / Nd[d]) > 1e-12:
+            misread = True
+            continue
+        resid = max(resid, abs(_ansatz(p, d, *fp) - pe))
+        xerr = max(xerr, abs((p - fp[0]) * d ** fp[1] - x))
+    if misread:             # the fit did not work on the planted (d, p, n_fail/N) table of this set
+        V.append({'key': _key(sd, 'planted-rates-not-used', **okey),
+                  'detail': dict(det, points_used=obs['points'][:12], points_planted=len(table))})
+    if resid > tol_resid:
+        V.append({'key': _key(sd, 'params-not-on-documented-ansatz', **okey),
+                  'detail': dict(det, max_residual=resid)})
+    if xerr > TOL_X:
+        V.append({'key': _key(sd, 'rescaled-x-not-documented', **okey), 'detail': dict(det, max_x_error=xerr)})
+
+
 def eval_case(case):
     res = {'evals': 0, 'nontrivial': 0, 'violations': [], 'outcomes': [], 'samples': [],
            'extra': {'violations_total': 0, 'orders_bitwise_equal': 0, 'orders_compared': 0,
-                     'status_clause_waived_interval_end_not_probability': 0}}
+                     'status_clause_waived_interval_end_not_probability': 0, 'planted_sets_analysed': 0}}
     V = []
-    p_th, nu, A, B, C = case['p_th'], case['nu'], case['A'], case['B'], case['C']
-    ds = case['ds']
-    Nd = dict(zip(ds, case.get('n_by_d') or [N_TRIALS] * len(ds)))
-    ps = [round(p, 6) for p in case['rates']] if case.get('rates') else _rates(p_th, case['half'], case['nrates'])
-    p_lo, p_hi = min(ps), max(ps)
-    tol_param = case.get('tol', {}).get('param', TOL_PARAM)
-    tol_resid = case.get('tol', {}).get('resid', TOL_RESID)
-    table = {}
+    sets = _planted_sets(case)
     sb = tempfile.mkdtemp(prefix='c16_', dir='/dev/shm' if os.path.isdir('/dev/shm') else None)
     try:
-        # ---- real-format records for every distance (template from a real 1-trial simulation)
-        records = []
-        for d in ds:
-            data = _template(case['cls'], d, ps, os.path.join(sb, 'tmpl_%d.json' % d))
-            if len(data) != len(ps):
-                raise AssertionError('template has %d records' % len(data))
-            for rec in data:
-                if rec['inputs']['code']['d'] != d:
-                    raise AssertionError('code.d = %r for planted distance %d' % (rec['inputs']['code']['d'], d))
-                p = rec['inputs']['error_rate']
-                f = _ansatz(p, d, p_th, nu, A, B, C)
-                nf = _n_fail(f, Nd[d])
-                if not 0 < nf < Nd[d]:
-                    raise AssertionError('planted rate outside (0,1)')
-                _plant(rec, nf, Nd[d])
-                table[(d, round(p, 6))] = nf
-            os.remove(os.path.join(sb, 'tmpl_%d.json' % d))
-            records.append(data)
-        # non-triviality: the extreme distances cross inside the window, each distance has >= 3 counts
-        dif = [table[(ds[-1], round(p, 6))] / Nd[ds[-1]] - table[(ds[0], round(p, 6))] / Nd[ds[0]] for p in (p_lo, p_hi)]
-        crossing = dif[0] * dif[1] < 0
-        varied = all(len({table[(d, p)] for p in ps}) >= 3 for d in ds)
-        res['nontrivial'] = int(crossing and varied)
-        digest = hashlib.sha1(json.dumps(sorted((d, p, n) for (d, p), n in table.items())).encode()).hexdigest()[:10]
+        # ---- real-format records for every (planted set, distance): template from a real 1-trial simulation
+        plant = []                      # per set: rates, trial counts, planted table
+        units = []                      # one result file each: (set index, distance, records)
+        nontrivial = True
+        for si, sd in enumerate(sets):
+            ds = sd['ds']
+            Nd = dict(zip(ds, sd.get('n_by_d') or [N_TRIALS] * len(ds)))
+            ps = [round(p, 6) for p in sd['rates']] if sd.get('rates') else _rates(sd['p_th'], sd['half'],
+                                                                                   sd['nrates'])
+            table = {}
+            for d in ds:
+                tmpl = os.path.join(sb, 'tmpl_%d_%d.json' % (si, d))
+                data = _template(sd['cls'], d, ps, tmpl, sd.get('decoder'), sd.get('direction'))
+                os.remove(tmpl)
+                if len(data) != len(ps):
+                    raise AssertionError('template has %d records' % len(data))
+                for rec in data:
+                    if rec['inputs']['code']['d'] != d:
+                        raise AssertionError('code.d = %r for planted distance %d' % (rec['inputs']['code']['d'], d))
+                    p = rec['inputs']['error_rate']
+                    nf = _n_fail(_ansatz(p, d, sd['p_th'], sd['nu'], sd['A'], sd['B'], sd['C']), Nd[d])
+                    if not 0 < nf < Nd[d]:
+                        raise AssertionError('planted rate outside (0,1)')
+                    _plant(rec, nf, Nd[d])
+                    table[(d, round(p, 6))] = nf
+                units.append((si, d, data))
+            # non-triviality: the extreme distances cross inside the window, each distance has >= 3 counts
+            dif = [table[(ds[-1], p)] / Nd[ds[-1]] - table[(ds[0], p)] / Nd[ds[0]] for p in (min(ps), max(ps))]
+            nontrivial = nontrivial and dif[0] * dif[1] < 0 and all(
+                len({table[(d, p)] for p in ps}) >= 3 for d in ds)
+            plant.append((ps, Nd, table))
+        if len(sets) > 1:               # several sets: their planted thresholds really differ
+            nontrivial = nontrivial and len({sd['p_th'] for sd in sets}) == len(sets)
+        res['nontrivial'] = int(nontrivial)
+        digest = hashlib.sha1(json.dumps(
+            [sorted((d, p, n) for (d, p), n in t.items()) for _, _, t in plant]).encode()).hexdigest()[:10]
 
         # ---- every (file permutation, row shuffle)
         first = None
         for perm, shuffle in case['orders']:
             files = []
-            for i, d in enumerate(ds):
-                path = os.path.join(sb, 'results_d%d.json' % d)
-                ro = _row_order(shuffle, len(ps))
+            for si, d, data in units:
+                path = os.path.join(sb, 'results_s%d_d%d.json' % (si, d))
                 with open(path, 'w') as f:
-                    json.dump([records[i][j] for j in ro], f)
+                    json.dump([data[j] for j in _row_order(shuffle, len(data))], f)
                 files.append(path)
-            obs = _observe([files[i] for i in perm])
+            rows = _observe([files[i] for i in perm])
             res['evals'] += 1
-            okey = {'file_order': [ds[i] for i in perm], 'row_shuffle': shuffle}
-            if obs['n_rows'] != 1:
-                V.append({'key': _key(case, 'fit-not-success', status='%d threshold rows' % obs['n_rows'], **okey),
-                          'detail': {}})
+            res['extra']['planted_sets_analysed'] += len(sets)
+            if len(sets) == 1:
+                okey = {'file_order': [units[i][1] for i in perm], 'row_shuffle': shuffle}
+            else:
+                okey = {'file_order': ['s%d-d%d' % units[i][:2] for i in perm], 'row_shuffle': shuffle}
+            # (0) every planted data set is its own row of the thresholds table
+            if len(rows) != len(sets):
+                if len(sets) == 1:
+                    V.append({'key': _key(case, 'fit-not-success', status='%d threshold rows' % len(rows), **okey),
+                              'detail': {'rows': [_brief(r) for r in rows][:4], 'order': okey}})
+                else:
+                    kk = _key(sets[0], 'planted-sets-not-separate-rows', rows=len(rows), **okey)
+                    kk.update({'set': 'all', 'planted_p_th': [round(sd['p_th'], 4) for sd in sets]})
+                    V.append({'key': kk, 'detail': {'rows': [_brief(r) for r in rows][:4], 'order': okey,
+                                                    'planted_sets': len(sets)}})
                 continue
-            # (1) status.  Waived (and counted) when an end of the reported interval is not a probability: then the
-            #     bootstrap is so wide that the planting is not in the well-conditioned box for this clause, and
-            #     'Invalid threshold value.' is the documented answer (2 of the 120 extra plantings on /repo).
-            interval_valid = 0 <= obs['p_th_fss_left'] and obs['p_th_fss_right'] <= 1
-            if obs['fit_status'] != 'success' and not interval_valid and case.get('family') is not None:
-                res['extra']['status_clause_waived_interval_end_not_probability'] += 1
-            elif obs['fit_status'] != 'success':
-                V.append({'key': _key(case, 'fit-not-success', status=obs['fit_status'][:60], **okey),
-                          'detail': dict({k: obs[k] for k in obs if k != 'points'}, order=okey)})
-            fp = obs['fss_params']
-            est, left, right = obs['p_th_fss'], obs['p_th_fss_left'], obs['p_th_fss_right']
-            finite = all(math.isfinite(v) for v in _numbers(obs))
-            det = {k: obs[k] for k in obs if k != 'points'}
-            det['order'] = okey
-            det['planted'] = {'p_th': p_th, 'nu': nu, 'A': A, 'B': B, 'C': C, 'data_range': [p_lo, p_hi]}
-            if finite:
-                # (2) fitted threshold parameter and reported estimate
-                if abs(fp[0] - p_th) > tol_param:
-                    V.append({'key': _key(case, 'threshold-off', which='fss_params[0]', **okey), 'detail': det})
-                elif abs(est - p_th) > max(TOL_REPORT, (right - left) / 2):
-                    V.append({'key': _key(case, 'threshold-off', which='p_th_fss', **okey), 'detail': det})
-                # (3) estimate inside its own interval and inside the data range; for the well-sampled centred
-                #     family (DESIGN plan) the whole interval lies inside the data range as well
-                if not left <= est <= right:
-                    V.append({'key': _key(case, 'outside-own-interval', **okey), 'detail': det})
-                if not p_lo <= est <= p_hi:
-                    V.append({'key': _key(case, 'estimate-outside-data-range', **okey), 'detail': det})
-                elif case.get('interval_in_range', True) and not (p_lo <= left and right <= p_hi):
-                    V.append({'key': _key(case, 'interval-outside-data-range', **okey), 'detail': det})
-                # (4) the reported parameters, read on the DOCUMENTED ansatz, reproduce the planted rates
-                resid = 0.0
-                xerr = 0.0
-                misread = len(obs['points']) != len(table)
-                for d, p, pe, x in obs['points']:
-                    want = table.get((d, round(p, 6)))
-                    if want is None or abs(pe - want / Nd[d]) > 1e-12:
-                        misread = True
-                        continue
-                    resid = max(resid, abs(_ansatz(p, d, *fp) - pe))
-                    xerr = max(xerr, abs((p - fp[0]) * d ** fp[1] - x))
-                if misread:             # the fit did not work on the planted (d, p, n_fail/N) table
-                    V.append({'key': _key(case, 'planted-rates-not-used', **okey),
-                              'detail': dict(det, points_used=obs['points'][:12], points_planted=len(table))})
-                if resid > tol_resid:
-                    det2 = dict(det, max_residual=resid)
-                    V.append({'key': _key(case, 'params-not-on-documented-ansatz', **okey), 'detail': det2})
-                if xerr > TOL_X:
-                    det2 = dict(det, max_x_error=xerr)
-                    V.append({'key': _key(case, 'rescaled-x-not-documented', **okey), 'detail': det2})
+            rows = _match(rows, sets)
+            for sd, obs, (ps, Nd, table) in zip(sets, rows, plant):
+                _judge(sd, obs, table, Nd, ps, okey, V, res['extra'])
             # (5) order independence
             if first is None:
-                first = (okey, obs)
-                res['outcomes'].append('%s|%.4f|%.4f|%s' % (obs['fit_status'][:12], est, (right - left) / 2, digest))
+                first = (okey, rows)
+                res['outcomes'].append('|'.join('%s,%.4f,%.4f' % (
+                    o['fit_status'][:12], o['p_th_fss'], (o['p_th_fss_right'] - o['p_th_fss_left']) / 2)
+                    for o in rows) + '|' + digest + ('|' + case['varied'] if case.get('varied') else ''))
             else:
-                res['extra']['orders_compared'] += 1
-                a, b = _numbers(first[1]), _numbers(obs)
-                same_status = first[1]['fit_status'] == obs['fit_status']
-                bitwise = same_status and all(
-                    (x == y) or (x != x and y != y) for x, y in zip(a, b))
-                res['extra']['orders_bitwise_equal'] += int(bitwise)
-                close = same_status and all(
-                    (x != x and y != y) or abs(x - y) <= TOL_ORDER for x, y in zip(a, b))
-                if not close:
-                    V.append({'key': _key(case, 'order-dependence', **okey),
-                              'detail': {'reference_order': first[0],
-                                         'reference': {k: first[1][k] for k in first[1] if k != 'points'},
-                                         'this': {k: obs[k] for k in obs if k != 'points'}}})
+                for sd, ref, obs in zip(sets, first[1], rows):
+                    res['extra']['orders_compared'] += 1
+                    a, b = _numbers(ref), _numbers(obs)
+                    same_status = ref['fit_status'] == obs['fit_status']
+                    bitwise = same_status and all(
+                        (x == y) or (x != x and y != y) for x, y in zip(a, b))
+                    res['extra']['orders_bitwise_equal'] += int(bitwise)
+                    close = same_status and all(
+                        (x != x and y != y) or abs(x - y) <= TOL_ORDER for x, y in zip(a, b))
+                    if not close:
+                        V.append({'key': _key(sd, 'order-dependence', **okey),
+                                  'detail': {'reference_order': first[0], 'reference': _brief(ref),
+                                             'this': _brief(obs)}})
         if first is not None and not res['samples']:
-            res['samples'].append({'planted': {'p_th': p_th, 'nu': nu, 'A': A, 'B': B, 'C': C},
-                                   'distances': ds, 'rates': ps,
-                                   'n_fail': [[table[(d, p)] for p in ps] for d in ds],
-                                   'reported': {k: first[1][k] for k in first[1] if k != 'points'},
-                                   'orders': len(case['orders'])})
+            res['samples'].append({
+                'planted': [{k: sd.get(k) for k in ('p_th', 'nu', 'A', 'B', 'C', 'cls', 'decoder', 'direction')}
+                            for sd in sets],
+                'distances': [sd['ds'] for sd in sets], 'rates': [ps for ps, _, _ in plant],
+                'n_fail': [[[t[(d, p)] for p in ps] for d in sd['ds']] for sd, (ps, _, t) in zip(sets, plant)],
+                'reported': [_brief(o) for o in first[1]], 'orders': len(case['orders'])})
     finally:
         shutil.rmtree(sb, ignore_errors=True)
     res['extra']['violations_total'] = len(V)
